@@ -603,6 +603,284 @@ Section SharedP.
   Qed.
 End SharedP.
 
+(* ------------------------------------------------------------------ the world with object identity *)
+Lemma In_dset {A} (d : list (name * A)) k v k0 v0 :
+  In (k0, v0) (dset N.eqb d k v) -> (k0 = k /\ v0 = v) \/ In (k0, v0) d.
+Proof.
+  induction d as [|[k' w] r IH]; cbn.
+  - intros [[= <- <-]|[]]. now left.
+  - destruct (N.eqb k k'); cbn.
+    + intros [[= <- <-]|H]; [now left|right; now right].
+    + intros [H|H]; [right; now left|]. destruct (IH H) as [?|?]; [now left|right; now right].
+Qed.
+Lemma nth_error_update_same {A} (l : list A) i x y :
+  nth_error l i = Some y -> nth_error (update l i x) i = Some x.
+Proof.
+  revert i. induction l as [|z r IH]; intros i; destruct i; cbn; try discriminate; auto.
+Qed.
+Lemma nth_error_app_old {A} (l : list A) x a y :
+  nth_error l a = Some y -> nth_error (l ++ [x]) a = Some y.
+Proof.
+  intros H. rewrite nth_error_app1; [assumption|]. apply nth_error_Some. congruence.
+Qed.
+Lemma nth_error_app_new {A} (l : list A) x : nth_error (l ++ [x]) (length l) = Some x.
+Proof. rewrite nth_error_app2 by lia. now rewrite Nat.sub_diag. Qed.
+
+Section HeapP.
+  Context {T V M : Type}.
+  Local Notation cel := (cell T V M).
+  Local Notation hw := (heapw T V M).
+
+  Definition all_refs (x : rext) : list (name * nat) := r_types x ++ r_values x ++ r_ops x.
+  (* the cell at address a is live and its `_extension` pointer is the Extension object number i *)
+  Definition owned (h : list cel) (i a : nat) : Prop :=
+    exists c, nth_error h a = Some c /\ c_ext c = Some i.
+  Definition is_op_cell (h : list cel) (a : nat) : Prop :=
+    exists c d, nth_error h a = Some c /\ c_obj c = OOp d.
+  Definition stamped (n : name) (o : obj T V M) : Prop :=
+    match o with OOp d => op_names_owner n d | _ => True end.
+  Definition cell_ok (xs : list rext) (c : cel) : Prop :=
+    match c_ext c with
+    | Some i => exists x, nth_error xs i = Some x /\ stamped (r_name x) (c_obj c)
+    | None => True
+    end.
+  (* the invariant of the heap world: every owned cell carries its owner's stamp; every address held by
+     an Extension object is a live cell owned by that very object; operation entries hold operations *)
+  Record hinv (w : hw) : Prop := {
+    hi_cells : Forall (cell_ok (hw_exts w)) (hw_heap w);
+    hi_owned : forall i x, nth_error (hw_exts w) i = Some x ->
+               forall k a, In (k, a) (all_refs x) -> owned (hw_heap w) i a;
+    hi_ops : forall i x, nth_error (hw_exts w) i = Some x ->
+             forall k a, In (k, a) (r_ops x) -> is_op_cell (hw_heap w) a }.
+
+  Lemma stamp_op (x : rext) (d : aopdef T M) :
+    stamp x (OOp d : obj T V M) = OOp (snd (add_op_def (@hdr_of T V M x) d)).
+  Proof. reflexivity. Qed.
+  Lemma stamp_stamped (x : rext) (o : obj T V M) : stamped (r_name x) (stamp x o).
+  Proof.
+    destruct o as [t|d|v]; cbn; try exact I. split; cbn; [reflexivity|].
+    intros p. destruct (sig_poly (aod_sig d)); [|discriminate]. intros [= <-]. cbn.
+    apply set_union_one_in. now left.
+  Qed.
+  Lemma store_name (x : rext) (o : obj T V M) a : r_name (store x o a) = r_name x.
+  Proof. now destruct o. Qed.
+  Lemma store_refs (x : rext) (o : obj T V M) a' k a :
+    In (k, a) (all_refs (store x o a')) -> a = a' \/ In (k, a) (all_refs x).
+  Proof.
+    unfold all_refs. destruct o; cbn [store r_types r_values r_ops]; rewrite !in_app_iff;
+      intros [H|[H|H]]; try (right; tauto);
+      apply In_dset in H as [[_ ->]|H]; try (now left); right; tauto.
+  Qed.
+  Lemma store_ops (x : rext) (o : obj T V M) a' k a :
+    In (k, a) (r_ops (store x o a')) ->
+    (a = a' /\ exists d, o = OOp d) \/ In (k, a) (r_ops x).
+  Proof.
+    destruct o as [t|d|v]; cbn [store r_ops]; try (intros H; now right).
+    intros H. apply In_dset in H as [[_ ->]|H]; [left; split; [reflexivity|now exists d]|now right].
+  Qed.
+  Lemma ops_in_refs (x : rext) k a : In (k, a) (r_ops x) -> In (k, a) (all_refs x).
+  Proof. unfold all_refs. rewrite !in_app_iff. tauto. Qed.
+
+  (* names of the Extension objects never change *)
+  Lemma cell_ok_update (xs : list rext) i x x' (c : cel) :
+    nth_error xs i = Some x -> r_name x' = r_name x -> cell_ok xs c -> cell_ok (update xs i x') c.
+  Proof.
+    intros Hx Hn. unfold cell_ok. destruct (c_ext c) as [j|]; [|trivial].
+    intros [y [Hy Hs]]. destruct (Nat.eq_dec j i) as [->|Hne].
+    - exists x'. split; [eapply nth_error_update_same, Hx|]. rewrite Hn. congruence.
+    - exists y. split; [now rewrite nth_error_update_other|assumption].
+  Qed.
+
+  (* a cell held by ANOTHER Extension object is not touched by exts[i].add_*(handle r) *)
+  Lemma hstep_keeps_cell (w : hw) ij k a :
+    k <> fst ij -> owned (hw_heap w) k a ->
+    nth_error (hw_heap (hstep w ij)) a = nth_error (hw_heap w) a.
+  Proof.
+    intros Hne [c0 [Ha Hk]]. unfold hstep.
+    destruct (nth_error (hw_exts w) (fst ij)) as [x|]; [|reflexivity].
+    destruct (nth_error (hw_heap w) (snd ij)) as [c|] eqn:Ec; [|reflexivity]. cbn [hw_heap].
+    destruct (c_ext c) as [j|] eqn:Ej.
+    - destruct (Nat.eqb_spec j (fst ij)) as [->|Hj]; cbn [negb].
+      + destruct (Nat.eq_dec a (snd ij)) as [->|Hd]; [|now apply nth_error_update_other].
+        exfalso. rewrite Ha in Ec. injection Ec as ->. rewrite Hk in Ej. now injection Ej.
+      + rewrite Ha. eapply nth_error_app_old, Ha.
+    - destruct (Nat.eq_dec a (snd ij)) as [->|Hd]; [|now apply nth_error_update_other].
+      exfalso. rewrite Ha in Ec. injection Ec as ->. rewrite Hk in Ej. discriminate Ej.
+  Qed.
+
+  Lemma hstep_inv (w : hw) ij : hinv w -> hinv (hstep w ij).
+  Proof.
+    intros [Hc Ho Hp]. destruct ij as [i r]. unfold hstep. cbn [fst snd].
+    destruct (nth_error (hw_exts w) i) as [x|] eqn:Ex; [|now split].
+    destruct (nth_error (hw_heap w) r) as [c|] eqn:Ec; [|now split].
+    set (copied := match c_ext c with None => false | Some k => negb (Nat.eqb k i) end).
+    set (a' := if copied then length (hw_heap w) else r).
+    set (c' := {| c_obj := stamp x (c_obj c); c_ext := Some i |}).
+    set (h' := if copied then hw_heap w ++ [c'] else update (hw_heap w) r c').
+    (* the new cell sits at a' *)
+    assert (Hnew : nth_error h' a' = Some c').
+    { unfold h', a'. destruct copied; [apply nth_error_app_new|eapply nth_error_update_same, Ec]. }
+    (* a cell that was live stays live; if it is the one mutated in place it was unowned or owned by i *)
+    assert (Hold : forall a c0, nth_error (hw_heap w) a = Some c0 ->
+                   nth_error h' a = Some c0 \/
+                   (a = r /\ c0 = c /\ copied = false /\ nth_error h' a = Some c')).
+    { intros a c0 Ha. unfold h'. destruct copied eqn:Ecp.
+      - left. eapply nth_error_app_old, Ha.
+      - destruct (Nat.eq_dec a r) as [->|Hd].
+        + right. repeat split; [congruence|eapply nth_error_update_same, Ec].
+        + left. now rewrite nth_error_update_other. }
+    assert (Hcp : copied = false -> c_ext c = None \/ c_ext c = Some i).
+    { unfold copied. destruct (c_ext c) as [j|]; [|now left].
+      destruct (Nat.eqb_spec j i) as [E|]; cbn; [right; now rewrite E|discriminate]. }
+    split; cbn [hw_exts hw_heap]; fold copied; fold a'; fold c'; fold h'.
+    - (* cells *)
+      assert (Hc' : cell_ok (update (hw_exts w) i (store x (c_obj c) a')) c').
+      { unfold cell_ok. cbn [c_ext c' c_obj]. exists (store x (c_obj c) a').
+        split; [eapply nth_error_update_same, Ex|]. rewrite store_name. apply stamp_stamped. }
+      assert (Hc0 : Forall (cell_ok (update (hw_exts w) i (store x (c_obj c) a'))) (hw_heap w)).
+      { eapply Forall_impl; [|exact Hc]. intros c0. eapply cell_ok_update; [exact Ex|apply store_name]. }
+      unfold h'. destruct copied.
+      + apply Forall_app. split; [assumption|now constructor].
+      + now apply Forall_update.
+    - (* owned *)
+      intros k y Hy k0 a Hin. destruct (Nat.eq_dec k i) as [->|Hne].
+      + rewrite (nth_error_update_same _ _ _ _ Ex) in Hy. injection Hy as <-.
+        apply store_refs in Hin as [->|Hin].
+        * exists c'. now split.
+        * destruct (Ho i x Ex k0 a Hin) as [c0 [Ha Hi]].
+          destruct (Hold a c0 Ha) as [H|[_ [_ [_ H]]]]; [now exists c0|exists c'; now split].
+      + rewrite nth_error_update_other in Hy by assumption.
+        destruct (Ho k y Hy k0 a Hin) as [c0 [Ha Hk]].
+        destruct (Hold a c0 Ha) as [H|[-> [-> [Hf _]]]]; [now exists c0|].
+        destruct (Hcp Hf); congruence.
+    - (* operation entries hold operations *)
+      intros k y Hy k0 a Hin. destruct (Nat.eq_dec k i) as [->|Hne].
+      + rewrite (nth_error_update_same _ _ _ _ Ex) in Hy. injection Hy as <-.
+        apply store_ops in Hin as [[-> [d Hd]]|Hin].
+        * exists c', (snd (add_op_def (@hdr_of T V M x) d)). split; [assumption|].
+          cbn [c' c_obj]. now rewrite Hd.
+        * destruct (Hp i x Ex k0 a Hin) as [c0 [d [Ha Hd]]].
+          destruct (Hold a c0 Ha) as [H|[_ [-> [_ H]]]]; [now exists c0, d|].
+          exists c', (snd (add_op_def (@hdr_of T V M x) d)). split; [assumption|].
+          cbn [c' c_obj]. now rewrite Hd.
+      + rewrite nth_error_update_other in Hy by assumption.
+        destruct (Hp k y Hy k0 a Hin) as [c0 [d [Ha Hd]]].
+        destruct (Ho k y Hy k0 a (ops_in_refs _ _ _ Hin)) as [c1 [Ha1 Hk]].
+        assert (c1 = c0) by congruence. subst c1.
+        destruct (Hold a c0 Ha) as [H|[-> [-> [Hf _]]]]; [now exists c0, d|].
+        destruct (Hcp Hf); congruence.
+  Qed.
+  Lemma hrun_inv p : forall w : hw, hinv w -> hinv (hrun w p).
+  Proof. induction p as [|ij r IH]; cbn; intros w H; [assumption|]. apply IH, hstep_inv, H. Qed.
+  Lemma new_heapw_inv hdrs (objs : list (obj T V M)) : hinv (new_heapw hdrs objs).
+  Proof.
+    split; cbn.
+    - apply Forall_forall. intros c Hin. apply in_map_iff in Hin as [o [<- _]]. exact I.
+    - intros i x Hx k a Hin. apply nth_error_In, in_map_iff in Hx as [h [<- _]]. destruct Hin.
+    - intros i x Hx k a Hin. apply nth_error_In, in_map_iff in Hx as [h [<- _]]. destruct Hin.
+  Qed.
+  Lemma hinv_names_owner (w : hw) : hinv w -> heap_names_owner w.
+  Proof.
+    intros [Hc Ho Hp] i x Hx k a Hin.
+    destruct (Hp i x Hx k a Hin) as [c [d [Ha Hd]]].
+    destruct (Ho i x Hx k a (ops_in_refs _ _ _ Hin)) as [c1 [Ha1 Hi]].
+    assert (c1 = c) by congruence. subst c1.
+    exists c, d. repeat split; try assumption.
+    - rewrite Forall_forall in Hc. specialize (Hc c (nth_error_In _ _ Ha)).
+      unfold cell_ok in Hc. rewrite Hi in Hc. destruct Hc as [y [Hy Hs]].
+      assert (y = x) by congruence. subst y. rewrite Hd in Hs. apply Hs.
+    - rewrite Forall_forall in Hc. specialize (Hc c (nth_error_In _ _ Ha)).
+      unfold cell_ok in Hc. rewrite Hi in Hc. destruct Hc as [y [Hy Hs]].
+      assert (y = x) by congruence. subst y. rewrite Hd in Hs. apply Hs.
+  Qed.
+
+  (* whatever is added to whichever Extension object, in any order, including the same definition object to
+     several Extension objects that carry the SAME name: every operation definition held by an Extension
+     object reports that object as its owner and names it among its requirements *)
+  Theorem heap_names_owner_run hdrs (objs : list (obj T V M)) p :
+    heap_names_owner (hrun (new_heapw hdrs objs) p).
+  Proof. apply hinv_names_owner, hrun_inv, new_heapw_inv. Qed.
+
+  (* frame: exts[i].add_*(...) leaves every other Extension object as it was — its dictionaries, every
+     definition it holds (fields and owner pointer) *)
+  Lemma deref_ext {A} (h h' : list cel) (pick : obj T V M -> option A) d :
+    (forall k a, In (k, a) d -> nth_error h' a = nth_error h a) -> deref h' pick d = deref h pick d.
+  Proof.
+    induction d as [|[k a] r IH]; cbn; intros H; [reflexivity|].
+    rewrite (H k a) by now left. f_equal. apply IH. intros k0 a0 Hin. apply (H k0 a0). now right.
+  Qed.
+  Theorem heap_frame (w : hw) ij k x : hinv w -> k <> fst ij -> nth_error (hw_exts w) k = Some x ->
+    nth_error (hw_exts (hstep w ij)) k = Some x /\
+    view (hw_heap (hstep w ij)) x = view (hw_heap w) x /\
+    held_owners (hw_heap (hstep w ij)) x = held_owners (hw_heap w) x.
+  Proof.
+    intros Hi Hne Hx.
+    assert (Hk : forall k0 a, In (k0, a) (all_refs x) ->
+                 nth_error (hw_heap (hstep w ij)) a = nth_error (hw_heap w) a).
+    { intros k0 a Hin. eapply hstep_keeps_cell; [exact Hne|]. eapply (hi_owned w Hi), Hin. exact Hx. }
+    split; [|split].
+    - unfold hstep. destruct (nth_error (hw_exts w) (fst ij)); [|assumption].
+      destruct (nth_error (hw_heap w) (snd ij)); [|assumption]. cbn [hw_exts].
+      now rewrite nth_error_update_other.
+    - unfold view. f_equal; apply deref_ext; intros k0 a Hin; apply (Hk k0);
+        unfold all_refs; rewrite !in_app_iff; tauto.
+    - unfold held_owners.
+      assert (H : forall k0 a, In (k0, a) (r_ops x) ->
+                  nth_error (hw_heap (hstep w ij)) a = nth_error (hw_heap w) a).
+      { intros k0 a Hin. apply (Hk k0), ops_in_refs, Hin. }
+      revert H. generalize (r_ops x). intros d. induction d as [|[k0 a] r IH]; cbn; intros H; [reflexivity|].
+      rewrite (H k0 a) by now left. f_equal. apply IH. intros k1 a1 Hin. apply (H k1 a1). now right.
+  Qed.
+  Theorem heap_frame_run hdrs (objs : list (obj T V M)) p :
+    let w := hrun (new_heapw hdrs objs) p in
+    forall ij k x, k <> fst ij -> nth_error (hw_exts w) k = Some x ->
+    nth_error (hw_exts (hstep w ij)) k = Some x /\
+    view (hw_heap (hstep w ij)) x = view (hw_heap w) x /\
+    held_owners (hw_heap (hstep w ij)) x = held_owners (hw_heap w) x.
+  Proof. intros w ij k x. apply heap_frame, hrun_inv, new_heapw_inv. Qed.
+End HeapP.
+
+(* non-vacuity, and the breakage the identity test prevents: two Extension objects with the SAME name 7;
+   one operation definition is added to the first and then to the second.  With the code's test (object
+   identity) the first keeps a definition that reports the first; deciding by NAME instead re-parents the
+   object in place and the first Extension object then holds a definition that reports the second. *)
+Definition hstep_by_name {T V M} (w : heapw T V M) (ij : nat * nat) : heapw T V M :=
+  match nth_error (hw_exts w) (fst ij), nth_error (hw_heap w) (snd ij) with
+  | Some x, Some c =>
+      let copied := match c_ext c with
+                    | None => false
+                    | Some k => match nth_error (hw_exts w) k with
+                                | Some y => negb (N.eqb (r_name y) (r_name x))
+                                | None => true
+                                end
+                    end in
+      let a := if copied then length (hw_heap w) else snd ij in
+      let c' := {| c_obj := stamp x (c_obj c); c_ext := Some (fst ij) |} in
+      {| hw_exts := update (hw_exts w) (fst ij) (store x (c_obj c) a);
+         hw_heap := if copied then hw_heap w ++ [c'] else update (hw_heap w) (snd ij) c' |}
+  | _, _ => w
+  end.
+Definition ex_ver (m : N) := {| v_major := 0; v_minor := m; v_patch := 0; v_pre := None; v_build := None |}.
+Definition ex_world : heapw N N N :=
+  new_heapw [(7%N, ex_ver 1, []); (7%N, ex_ver 2, [])]
+            [OOp {| aod_owner := None; aod_name := 20%N;
+                    aod_sig := {| sig_poly := Some {| pf_params := []; pf_input := []; pf_output := []; pf_reqs := [] |};
+                                  sig_binary := false |};
+                    aod_descr := 0%N; aod_misc := [] |}].
+Example heap_example :
+  map (held_owners (hw_heap (hrun ex_world [(0, 0); (1, 0)]))) (hw_exts (hrun ex_world [(0, 0); (1, 0)]))
+  = [[(20%N, Some 0, Some [7%N])]; [(20%N, Some 1, Some [7%N])]].
+Proof. vm_compute. reflexivity. Qed.
+Example by_name_refuted :
+  let w := fold_left hstep_by_name [(0, 0); (1, 0)] ex_world in
+  ~ heap_names_owner w /\
+  map (held_owners (hw_heap w)) (hw_exts w) = [[(20%N, Some 1, Some [7%N])]; [(20%N, Some 1, Some [7%N])]].
+Proof.
+  split; [|vm_compute; reflexivity].
+  intros H. specialize (H 0 _ eq_refl 20%N 0 (or_introl eq_refl)).
+  destruct H as [c [d [Hc [_ [He _]]]]]. vm_compute in Hc. injection Hc as <-. discriminate He.
+Qed.
+
 (* ------------------------------------------------------------------ non-vacuity *)
 (* payloads instantiated with numbers and the identity codec *)
 Definition ex_sig : opdefsig N :=
